@@ -43,19 +43,24 @@ type Obs struct {
 	OtherBugs int    `json:"otherbugs"`
 	Stored    bool   `json:"stored"`
 	Detail    string `json:"detail"`
+	// which identity the repository has configured as its own user, relative to the one attached to the request
+	Configured string `json:"configured"`
 }
 
 type world struct {
-	dir    string
-	repo   *repository.GoGitRepo
-	mrc    *cache.MultiRepoCache
-	rc     *cache.RepoCache
-	user   entity.Id
-	other  entity.Id
-	bugA   entity.Id // open bug with two comments and a label
-	bugB   entity.Id // closed bug
-	noAuth http.Handler
-	withAu http.Handler
+	configured string
+	file       repository.Hash // an uploaded file, to be attached
+	sentFiles  bool
+	dir        string
+	repo       *repository.GoGitRepo
+	mrc        *cache.MultiRepoCache
+	rc         *cache.RepoCache
+	user       entity.Id
+	other      entity.Id
+	bugA       entity.Id // open bug with two comments and a label
+	bugB       entity.Id // closed bug
+	noAuth     http.Handler
+	withAu     http.Handler
 }
 
 func router(mrc *cache.MultiRepoCache, user *entity.Id) http.Handler {
@@ -70,8 +75,10 @@ func router(mrc *cache.MultiRepoCache, user *entity.Id) http.Handler {
 	return r
 }
 
-func newWorld() *world {
-	w := &world{}
+// configured: which identity the repository has configured as its user (git-bug.identity): the one attached to the
+// requests ("same", what `git-bug webui` sets up), another one ("other"), none at all ("none")
+func newWorld(configured string) *world {
+	w := &world{configured: configured}
 	w.dir = hx.Scratch("api")
 	w.repo = hx.InitRepo(w.dir)
 	w.mrc = cache.NewMultiRepoCache()
@@ -84,8 +91,15 @@ func newWorld() *world {
 	hx.Must(err)
 	o, err := rc.Identities().New("somebody else", "else@example.org")
 	hx.Must(err)
-	hx.Must(rc.SetUserIdentity(u))
+	switch configured {
+	case "same":
+		hx.Must(rc.SetUserIdentity(u))
+	case "other":
+		hx.Must(rc.SetUserIdentity(o))
+	}
 	w.user, w.other = u.Id(), o.Id()
+	w.file, err = rc.StoreData(pngBytes(7))
+	hx.Must(err)
 	a, _, err := rc.Bugs().NewRaw(o, 1600000000, "bug A", "first message of A", nil, nil)
 	hx.Must(err)
 	_, _, err = a.AddCommentRaw(o, 1600000001, "second comment of A", nil, nil)
@@ -257,7 +271,9 @@ func (w *world) value(mutation string, f field, variant string, target entity.Id
 	case "message":
 		return "message sent through the API", true
 	case "files":
-		return []string{}, true
+		// a file uploaded before, as the web UI does when an image is pasted into a comment
+		w.sentFiles = true
+		return []string{string(w.file)}, true
 	case "target", "targetPrefix":
 		if variant == "unknown-bug" {
 			return strings.Repeat("f", 64), true
@@ -317,7 +333,7 @@ func (w *world) addressesBug(m field) bool {
 }
 
 func (w *world) mutate(m field, authed bool, variant string) Obs {
-	o := Obs{Ev: "Mutation", Name: m.Name, Auth: authed, Variant: variant, Valid: variant == "valid"}
+	o := Obs{Ev: "Mutation", Name: m.Name, Auth: authed, Variant: variant, Valid: variant == "valid", Configured: w.configured}
 	if len(m.Args) != 1 {
 		o.Detail = "mutation without a single input argument: only the gate is checked"
 	}
@@ -326,7 +342,7 @@ func (w *world) mutate(m field, authed bool, variant string) Obs {
 	sel := "clientMutationId"
 	for _, f := range w.typeFields(payload, false) {
 		if f.Name == "bug" {
-			sel += " bug{id title status labels{name} comments(first:50){nodes{message}} operations(first:100){totalCount nodes{author{id}}}}"
+			sel += " bug{id title status labels{name} comments(first:50){nodes{message files}} operations(first:100){totalCount nodes{author{id}}}}"
 		}
 	}
 	var args, decl string
@@ -344,6 +360,8 @@ func (w *world) mutate(m field, authed bool, variant string) Obs {
 		}
 	}
 	q := fmt.Sprintf("mutation(%s){%s(%s){%s}}", decl, m.Name, args, sel)
+	sentFiles := w.sentFiles
+	w.sentFiles = false
 	before := w.snapshot()
 	h := w.noAuth
 	if authed {
@@ -408,6 +426,10 @@ func (w *world) mutate(m field, authed bool, variant string) Obs {
 				default:
 					o.Reflects = true
 				}
+				// the attached file is part of the change
+				if sentFiles && !strings.Contains(s, string(w.file)) {
+					o.Reflects = false
+				}
 				// the operations the API lists for the returned bug are the stored ones
 				if ops, ok := rb["operations"].(map[string]interface{}); ok && m.Name != "newBug" {
 					if int(ops["totalCount"].(float64)) != after.nops[affected] {
@@ -423,7 +445,7 @@ func (w *world) mutate(m field, authed bool, variant string) Obs {
 }
 
 func (w *world) query(authed bool) Obs {
-	o := Obs{Ev: "Query", Name: "allBugs+bug+identities", Auth: authed, Valid: true, Variant: "valid"}
+	o := Obs{Ev: "Query", Name: "allBugs+bug+identities", Auth: authed, Valid: true, Variant: "valid", Configured: w.configured}
 	before := w.snapshot()
 	h := w.noAuth
 	if authed {
@@ -447,7 +469,7 @@ func pngBytes(seed int) []byte {
 }
 
 func (w *world) upload(authed bool, valid bool, seed int) Obs {
-	o := Obs{Ev: "Upload", Name: "upload", Auth: authed, Valid: valid, Variant: map[bool]string{true: "png", false: "not-an-image"}[valid]}
+	o := Obs{Ev: "Upload", Name: "upload", Configured: w.configured, Auth: authed, Valid: valid, Variant: map[bool]string{true: "png", false: "not-an-image"}[valid]}
 	data := pngBytes(seed)
 	if !valid {
 		data = []byte("plain text is not an accepted upload")
@@ -486,7 +508,7 @@ func (w *world) upload(authed bool, valid bool, seed int) Obs {
 func Run(args []string) {
 	out := hx.NewWriter(args[0])
 	defer out.Close()
-	w := newWorld()
+	w := newWorld("same")
 	defer w.close()
 	muts := w.mutations()
 	names := []string{}
@@ -517,10 +539,15 @@ func Run(args []string) {
 	out.Put(w.upload(true, false, 3))
 	out.Put(w.upload(true, true, 4))
 	for _, m := range muts {
-		w2 := newWorld()
-		out.Put(w2.mutate(m, true, "valid"))
-		// and again without a user on the changed world
-		out.Put(w2.mutate(m, false, "valid"))
-		w2.close()
+		for _, configured := range []string{"same", "other", "none"} {
+			w2 := newWorld(configured)
+			out.Put(w2.mutate(m, true, "valid"))
+			// and again without a user on the changed world
+			out.Put(w2.mutate(m, false, "valid"))
+			if configured != "same" && w2.addressesBug(m) {
+				out.Put(w2.mutate(m, true, "unknown-bug"))
+			}
+			w2.close()
+		}
 	}
 }
